@@ -158,9 +158,14 @@ class CFG:
             t = self._new("test", st.subject, st, label="match")
             self._link(frontier, t)
             out = []
+            exhaustive = False
             for case in st.cases:
                 out += self._seq(case.body, [(t, True)])
-            return out + [(t, False)]
+                pat = case.pattern
+                # `case _:` / `case name:` without a guard always matches: no fall-through past the match statement
+                if case.guard is None and isinstance(pat, ast.MatchAs) and pat.pattern is None:
+                    exhaustive = True
+            return out if exhaustive else out + [(t, False)]
         raise AnalysisError(f"cfg: unsupported statement {type(st).__name__} at line {getattr(st, 'lineno', '?')}")
 
     _handlers: List = []
